@@ -2899,9 +2899,135 @@ def _fuse_projections(tree):
     return count
 
 
+class _DictFlows(ast.NodeTransformer):
+    """{k: f(v) for k, v in {a: g(b) for a, b in Y}.items()}
+           -> {a: f(g(b)) for a, b in Y}
+       D.update({k: v for t in I if c})    (a statement)
+           -> for t in I: if c: D[k] = v"""
+    def __init__(self):
+        self.count = 0
+
+    def visit_DictComp(self, node):
+        self.generic_visit(node)
+        if len(node.generators) != 1:
+            return node
+        g = node.generators[0]
+        it = g.iter
+        if isinstance(it, ast.Call) and not it.args and not it.keywords and \
+                isinstance(it.func, ast.Attribute) and \
+                it.func.attr == 'items' and \
+                isinstance(it.func.value, ast.DictComp) and \
+                len(it.func.value.generators) == 1 and \
+                isinstance(g.target, ast.Tuple) and \
+                len(g.target.elts) == 2 and all(
+                    isinstance(e, ast.Name) for e in g.target.elts) and \
+                not g.is_async:
+            inner = it.func.value
+            ig = inner.generators[0]
+            k, v = (e.id for e in g.target.elts)
+            bound = {x.id for x in ast.walk(ig.target)
+                     if isinstance(x, ast.Name)}
+            outer_names = {x.id for x in ast.walk(node.key)
+                           if isinstance(x, ast.Name)} | {
+                x.id for x in ast.walk(node.value)
+                if isinstance(x, ast.Name)} | {
+                x.id for i_ in g.ifs for x in ast.walk(i_)
+                if isinstance(x, ast.Name)}
+            if bound & (outer_names - {k, v}) or any(
+                    isinstance(x, (ast.Call, ast.Yield, ast.NamedExpr))
+                    for x in ast.walk(inner.key)):
+                return node
+            sub = _Subst({k: inner.key, v: inner.value}, {})
+            self.count += 1
+            return ast.copy_location(ast.DictComp(
+                key=sub.visit(node.key), value=sub.visit(node.value),
+                generators=[ast.comprehension(
+                    target=ig.target, iter=ig.iter,
+                    ifs=list(ig.ifs) + [sub.visit(i_) for i_ in g.ifs],
+                    is_async=0)]), node)
+        return node
+
+    def visit_For(self, node):
+        """for k, v in {a: g(b) for a, b in Y}.items(): body
+               -> for a, b in Y: body[k := a, v := g(b)]"""
+        self.generic_visit(node)
+        it = node.iter
+        if isinstance(it, ast.Call) and not it.args and not it.keywords and \
+                isinstance(it.func, ast.Attribute) and \
+                it.func.attr == 'items' and \
+                isinstance(it.func.value, ast.DictComp) and \
+                len(it.func.value.generators) == 1 and \
+                not it.func.value.generators[0].is_async and \
+                isinstance(node.target, ast.Tuple) and \
+                len(node.target.elts) == 2 and all(
+                    isinstance(e, ast.Name) for e in node.target.elts) and \
+                not node.orelse:
+            inner = it.func.value
+            ig = inner.generators[0]
+            k, v = (e.id for e in node.target.elts)
+            bound = {x.id for x in ast.walk(ig.target)
+                     if isinstance(x, ast.Name)}
+            body_names = {x.id for st in node.body for x in ast.walk(st)
+                          if isinstance(x, ast.Name)}
+            restored = {x.id for st in node.body for x in ast.walk(st)
+                        if isinstance(x, ast.Name) and
+                        isinstance(x.ctx, (ast.Store, ast.Del))}
+            if bound & (body_names - {k, v}) or {k, v} & restored or \
+                    not (_dup_safe_arg(inner.key) and
+                         _dup_safe_arg(inner.value)):
+                return node
+            sub = _Subst({k: inner.key, v: inner.value}, {})
+            body = [sub.visit(st) for st in node.body]
+            for i_ in reversed(ig.ifs):
+                body = [ast.copy_location(
+                    ast.If(test=i_, body=body, orelse=[]), node)]
+            tgt = copy.deepcopy(ig.target)
+            for x in ast.walk(tgt):
+                if isinstance(x, (ast.Name, ast.Tuple, ast.List)):
+                    x.ctx = ast.Store()
+            self.count += 1
+            return ast.copy_location(ast.For(
+                target=tgt, iter=ig.iter, body=body, orelse=[],
+                lineno=node.lineno), node)
+        return node
+
+    def visit_Expr(self, node):
+        self.generic_visit(node)
+        c = node.value
+        if isinstance(c, ast.Call) and isinstance(c.func, ast.Attribute) \
+                and c.func.attr == 'update' and len(c.args) == 1 and \
+                not c.keywords and isinstance(c.args[0], ast.DictComp) and \
+                len(c.args[0].generators) == 1 and \
+                not c.args[0].generators[0].is_async and \
+                _stable_path(c.func.value):
+            d = c.args[0]
+            g = d.generators[0]
+            store = ast.Assign(targets=[ast.Subscript(
+                value=c.func.value, slice=d.key, ctx=ast.Store())],
+                value=d.value, lineno=node.lineno)
+            body = [ast.copy_location(store, node)]
+            for i_ in reversed(g.ifs):
+                body = [ast.copy_location(
+                    ast.If(test=i_, body=body, orelse=[]), node)]
+            tgt = copy.deepcopy(g.target)
+            for x in ast.walk(tgt):
+                if isinstance(x, (ast.Name, ast.Tuple, ast.List)):
+                    x.ctx = ast.Store()
+            self.count += 1
+            return ast.copy_location(ast.For(
+                target=tgt, iter=g.iter, body=body, orelse=[],
+                lineno=node.lineno), node)
+        return node
+
+
 def desugar(trees):
     n = 0
     for t in trees.values():
+        df = _DictFlows()
+        df.visit(t)
+        if df.count:
+            ast.fix_missing_locations(t)
+        n += df.count
         while True:
             k = _fuse_projections(t)
             n += k
